@@ -58,11 +58,16 @@ def files(ctx):
     summ = [(r'Path::exists$', s_bool('exists')), (r'Path::is_dir$', s_bool('is_dir')), (r'^from_file$|reader::from_file$', s_from_file), (r'Master::<S>::read_input', s_read_input),
             (r'read_dir::<', s_read_dir), (r'<PathBuf as Deref>::deref$|as Deref>::deref$', s_identity), (r'as From<.*>>::from$', lambda ex, st, f, a, t: [(st, named(st, st.fresh_name('converted'), t or 'err'))])]
     ex = ctx.exec(summaries=summ, max_visits=8)
-    F = ex.find(r'^<impl at src/lib.rs:[^>]*>::read_file$')
+    try:
+        F = ex.find(r'^<impl at src/lib.rs:[^>]*>::read_file$')
+    except Broken:
+        fam.obligations += 1; fam.witnesses += 1
+        fam.candidates.append(Candidate(fam.name, 'read-file', 'Master::read_file is not there any more: how a file becomes a reader is outside this scenario', {}, unmodelled='read_file restructured'))
+        F = None
     st = State()
     iref = slot(st, BV(z3.BitVec('index', 64)), 'INDEX')
-    ex.new_frame(st, F, [slot(st, named(st, 'SELF', 'Master'), 'self*'), slot(st, named(st, 'FILE', 'PathBuf'), 'file*'), iref, slot(st, named(st, 'PROCESS', 'dyn Process'), 'process*')])
-    for d in ex.run(st):
+    if F is not None: ex.new_frame(st, F, [slot(st, named(st, 'SELF', 'Master'), 'self*'), slot(st, named(st, 'FILE', 'PathBuf'), 'file*'), iref, slot(st, named(st, 'PROCESS', 'dyn Process'), 'process*')])
+    for d in (ex.run(st) if F is not None else []):
         if d.status == 'infeasible': continue
         evs = d.events
         if any(e == ('exists', False) for e in evs) or any(e == ('is_dir', True) for e in evs): continue      # missing file: the documented assert; directory: outside
@@ -91,6 +96,20 @@ def files(ctx):
             exp = '{"i":0,"j":0,"v":1}\n{"i":1,"j":0,"v":3}\n{"i":2,"j":1,"v":4}\n'
             c.replay = {'files': ['1 [2', ',3] 4 '], 'expected': exp, 'actual': show(r['stdout'])}
             c.status = 'reproduced' if show(r['stdout']) != exp else 'unit'
+            if c.status != 'reproduced':
+                # a file argument that is a pipe fed for ever: the reader must stream it (--take ends the run), not slurp it
+                import subprocess, time as _t
+                fifo = os.path.join(td, 'pipe'); os.mkfifo(fifo)
+                feeder = subprocess.Popen(['bash', '-c', f'exec 3>{fifo}; i=0; while [ $i -lt 4000 ]; do printf \'{{"n":%d}}\\n\' $i >&3 2>/dev/null || exit 0; i=$((i+1)); [ $((i % 50)) -eq 0 ] && sleep 0.05; done; sleep 8'], stdout=subprocess.DEVNULL, stderr=subprocess.DEVNULL)
+                try:
+                    t0 = _t.time()
+                    p = subprocess.run([ctx.tree.binary(), '--take', '2', '--style', 'consise', fifo], stdout=subprocess.PIPE, stderr=subprocess.PIPE, timeout=6)
+                    if p.returncode != 0 or p.stdout != b'{"n":0}\n{"n":1}\n':
+                        c.status = 'reproduced'; c.replay = {'what': 'a named pipe as file argument, fed for ever, --take 2', 'rc': p.returncode, 'stdout': show(p.stdout)[:100]}
+                except subprocess.TimeoutExpired:
+                    c.status = 'reproduced'; c.replay = {'what': 'a named pipe as file argument, fed slowly for ever, --take 2', 'result': 'no output and no exit within 6 s'}
+                finally:
+                    feeder.kill(); feeder.wait()
 
 
 def file_sources(ctx):
